@@ -346,7 +346,8 @@ class UCSolutionEnumerator():
 
     def random_components(self, components_shape: RandomComponentsShape, trial_count: int, leftover: int) -> Components:
         crossing_permutation_index = random.randrange(0, components_shape.crossings_shape)
-        if trial_count == len(self._crossing_instances) and self._crossing_is_unweighted:
+        if (trial_count == len(self._crossing_instances) and self._crossing_is_unweighted
+                and self.__complex_crossing_instances == 1):
             source_combination_indices = tuple([random.randrange(0, len)
                                                 for len in components_shape.combinations_shapes])
         else:
@@ -441,7 +442,8 @@ class UCSolutionEnumerator():
         # Generate the source combinations for the selected sequence.
         source_combinations = cast(List[dict], [])
         for i, p in enumerate(permutation_indices):
-            if trial_count == len(self._crossing_instances) and self._crossing_is_unweighted:
+            if (trial_count == len(self._crossing_instances) and self._crossing_is_unweighted
+                    and self.__complex_crossing_instances == 1):
                 component_for_p = components[1][p]
             else:
                 component_for_p = components[1][i]
@@ -626,7 +628,10 @@ class UCSolutionEnumerator():
         # of all combinations; in that case, we can just multiply the new segment
         # lengths into `solution_count`. Otherwise, we need to consider every choice of
         # `first_n` crossing combinations, and then multiply the
-        if first_n == len(self._crossing_instances) and self._crossing_is_unweighted:
+        # (With a crossed complex factor, each combination here stands for several trials, so a run of
+        # `len(self._crossing_instances)` trials is a partial one that can repeat a combination.)
+        if (first_n == len(self._crossing_instances) and self._crossing_is_unweighted
+                and self.__complex_crossing_instances == 1):
             solution_count *= reduce(op.mul, components_shape.combinations_shapes, 1)
         else:
             solution_count = self.sum_combination_products(solution_count,
